@@ -37,8 +37,31 @@ def parseNameId (j : Json) : NameId :=
 def parsePairs (j : Json) (k : String) : List (String × String) :=
   (arrD j k).filterMap fun p => match asStrList (asArr p) with | [a, b] => some (a, b) | _ => none
 
-def parseCfg (j : Json) : Cfg :=
-  { entityId := strD j "entity_id", signResponse := bool? j "sign_response", signAssertion := bool? j "sign_assertion",
+/-- a configuration value in the form the case wrote it: boolean, string, integer or absent -/
+def cfgVal (j : Json) (k : String) : CfgVal :=
+  match j.getObjVal? k with
+  | .ok (.bool b) => .bool b
+  | .ok (.str s) => .str s
+  | .ok (.num n) => match (fromJson? (.num n) : Except String Int) with | .ok i => .int i | .error _ => .unset
+  | _ => .unset
+
+/-- `forSpec`: the value as the PROPERTY reads it (defined forms), else as the code loads it. -/
+def cfgBool (forSpec : Bool) (v : CfgVal) : Option Bool :=
+  if forSpec && C09.formDefined v then C09.cfgReading v else loadBool v
+
+def formName : CfgVal → String
+  | .unset => "unset" | .bool _ => "bool" | .int _ => "int"
+  | .str s => "str:" ++ s
+
+def parseEntry (s : String) : Entry :=
+  match s with
+  | "authn_request_response" => .authnRequestResponse
+  | "ecp" => .ecp
+  | _ => .authnResponse
+
+def parseCfg (forSpec : Bool) (j : Json) : Cfg :=
+  { entityId := strD j "entity_id", signResponse := cfgBool forSpec (cfgVal j "sign_response"),
+    signAssertion := cfgBool forSpec (cfgVal j "sign_assertion"),
     signingAlg := str? j "signing_algorithm", digestAlg := str? j "digest_algorithm",
     policy := parsePolicy j "policy", domain := str? j "domain", ras := parsePairs j "ras" }
 
@@ -107,7 +130,7 @@ def assertionToJson (x : IssuedAssertion Ava) : Json :=
 
 def refusalName : Refusal → String
   | .sigAlgNotAllowed => "sigAlgNotAllowed" | .digestAlgNotAllowed => "digestAlgNotAllowed" | .emailNoDomain => "emailNoDomain"
-  | .fargMalformed => "fargMalformed" | .hokNoKeyInfo => "hokNoKeyInfo"
+  | .fargMalformed => "fargMalformed" | .hokNoKeyInfo => "hokNoKeyInfo" | .ecpSignedNotElement => "ecpSignedNotElement"
 
 def issuedToJson : Except Refusal (Issued Ava) → Json
   | .error e => Json.mkObj [("r", "refused"), ("why", refusalName e)]
@@ -213,10 +236,14 @@ def srcBranch (arg cfg : Option Bool) : String :=
 def handle (line : Json) : Json :=
   let c := (obj? line "case").getD Json.null
   let impl := (obj? line "impl").getD Json.null
-  let cfg := parseCfg ((obj? c "idp").getD Json.null)
-  let a := parseArgs ((obj? c "args").getD Json.null)
+  let idpJ := (obj? c "idp").getD Json.null
+  let cfg := parseCfg false idpJ             -- what the code makes of the configuration
+  let cfgS := parseCfg true idpJ             -- what the configuration demands (the specification's reading)
+  let entry := parseEntry (strD c "entry")
+  let aIn := parseArgs ((obj? c "args").getD Json.null)
+  let a := forward entry aIn                 -- the sibling entry points do not forward every parameter
   let conv : Conv Ava Ava := { fromLocal := id, toLocal := id }
-  let m := create D cfg a
+  let m := createVia entry D cfg aIn
   let implIdp := parseIssued ((obj? impl "idp").getD Json.null)
   let policy := a.releasePolicy.getD cfg.policy
   -- the SP stage
@@ -229,11 +256,11 @@ def handle (line : Json) : Json :=
   let implSp : Option (Sp.Outcome × Option Ava) := (obj? impl "sp").map parseSp
   let e2e (out : Except Refusal (Issued Ava)) (sp : Option (Sp.Outcome × Option Ava)) : Bool :=
     match sideJ, side with
-    | some j, some s => C09.specE2E D cfg a (sideForSpec j s) a.attrs out sp
+    | some j, some s => C09.specE2E D cfgS a (sideForSpec j s) a.attrs out sp
     | _, _ => true
-  let specImpl := C09.specScoping D cfg a implIdp && e2e implIdp implSp
-  let specModel := C09.specScoping D cfg a m && e2e m mSp
-  let why := C09.whyScoping D cfg a implIdp ++ (if e2e implIdp implSp then [] else ["end-to-end"])
+  let specImpl := C09.specScoping D cfgS a implIdp && e2e implIdp implSp
+  let specModel := C09.specScoping D cfgS a m && e2e m mSp
+  let why := C09.whyScoping D cfgS a implIdp ++ (if e2e implIdp implSp then [] else ["end-to-end"])
   let path := match m with
     | .error e => "refused/" ++ refusalName e
     | .ok r => "ok/nameid:" ++ nameIdBranch cfg a ++ "/sig:" ++ sigBranch r
@@ -243,13 +270,15 @@ def handle (line : Json) : Json :=
     | some (.noIdentity, _) => "none"
     | some (.rejected e, _) => "rejected/" ++ errName e
   let pre : Bool := match sideJ, side with
-    | some j, some s => C09.e2ePre D cfg a (sideForSpec j s)
+    | some j, some s => C09.e2ePre D cfgS a (sideForSpec j s)
     | _, _ => false
   Json.mkObj [
     ("model", Json.mkObj [("idp", issuedToJson m),
                           ("sp", match mSp with | some (o, ava) => spToJson o ava | none => Json.null)]),
     ("path", path),
     ("branches", Json.mkObj [
+      ("entry", strD c "entry" "authn_response"),
+      ("cfg-form", formName (cfgVal idpJ "sign_response") ++ "|" ++ formName (cfgVal idpJ "sign_assertion")),
       ("nameid", nameIdBranch cfg a), ("format", formatBranch a),
       ("policy", policyBranch policy a.spEntityId (raOf cfg a.spEntityId)),
       ("policy-source", if a.releasePolicy.isSome then "argument" else "configuration"),
